@@ -84,6 +84,7 @@ returns the list of differences (empty = conforming).
 """
 import errno
 import hashlib
+import itertools
 import multiprocessing as mp
 import os as _os
 import threading
@@ -93,6 +94,20 @@ from . import core
 CRASH = -2
 STEP = -1
 INF = 1 << 62
+
+
+class Id(tuple):
+    """identity of an inode / bpf object: (creator pid, per-creator count)"""
+    __slots__ = ()
+
+    def __new__(cls, pid, n):
+        return tuple.__new__(cls, (pid, n))
+
+    pid = property(lambda self: self[0])
+    n = property(lambda self: self[1])
+
+    def __repr__(self):
+        return f"Id({self[0]},{self[1]})"
 
 
 class SimBug(BaseException):
@@ -161,7 +176,7 @@ class World:
         self.objs = {}       # object id -> dict(kind=..., ...)
         self.attached = {}   # ifname -> object id
         self.counters = {}
-        self.provenance = {}  # free-form: who changed what last (not in canon)
+        self.tmpnames = {}   # mkdtemp name -> (prefix, pid, n)
         for d in dirs:
             self.makedirs(0, d, exist_ok=True)
 
@@ -169,7 +184,7 @@ class World:
     def _newid(self, pid, what):
         n = self.counters.get((pid, what), 0)
         self.counters[(pid, what)] = n + 1
-        return (pid, n)
+        return Id(pid, n)
 
     def _walk(self, path):
         """-> (parent Dir, name, node or None); root -> (None, '', root)"""
@@ -234,6 +249,7 @@ class World:
         if nm in node.entries:
             raise SimBug("mkdtemp name clash")
         node.entries[nm] = Dir()
+        self.tmpnames[nm] = (prefix, pid, n)
         return dir.rstrip("/") + "/" + nm
 
     def listdir(self, pid, path):
@@ -517,8 +533,28 @@ class World:
         self.fds.pop(pid, None)
 
     # ------------------------------------------------------------------ canon
-    def canon(self):
+    def canon(self, rename=None):
+        """hashable canonical state.  rename: {pid: pid} applies a renaming
+        of the processes (descriptor tables, lock owners, creator part of
+        inode / object ids, mkdtemp names) - used to identify states that
+        differ only in which of several identical processes is which"""
+        if rename is None:
+            def R(pid):
+                return pid
+
+            def rname(k):
+                return k
+        else:
+            R = rename.__getitem__
+
+            def rname(k):
+                t = self.tmpnames.get(k)
+                return k if t is None else f"{t[0]}.p{R(t[1])}.{t[2]}"
+
+        def rid(i):
+            return Id(R(i[0]), i[1]) if isinstance(i, Id) else i
         inodes = {}
+        live = set(self.attached.values())
 
         def content(d):
             if len(d) > 128:
@@ -528,37 +564,35 @@ class World:
 
         def node(n):
             if isinstance(n, Dir):
-                return ("d", tuple((k, node(n.entries[k]))
-                                   for k in sorted(n.entries)))
+                return ("d", tuple(sorted((rname(k), node(c))
+                                          for k, c in n.entries.items())))
             if isinstance(n, File):
-                inodes[n.ino] = content(n.data)
-                return ("f", n.ino)
-            return ("p", n.obj)
+                inodes[rid(n.ino)] = content(n.data)
+                return ("f", rid(n.ino))
+            live.add(n.obj)
+            return ("p", rid(n.obj))
         tree = node(self.root)
         fds = []
-        live = set(self.attached.values())
-        for pid in sorted(self.fds):
-            for fd in sorted(self.fds[pid]):
-                of = self.fds[pid][fd]
+        for pid in self.fds:
+            for fd, of in self.fds[pid].items():
                 if of.kind == "file":
-                    inodes[of.ref.ino] = content(of.ref.data)
-                    fds.append((pid, fd, "f", of.ref.ino, of.pos, of.flags))
+                    inodes[rid(of.ref.ino)] = content(of.ref.data)
+                    fds.append((R(pid), fd, "f", rid(of.ref.ino), of.pos,
+                                of.flags))
                 else:
                     live.add(of.ref)
-                    fds.append((pid, fd, "b", of.ref))
-
-        def pins(n):
-            if isinstance(n, Dir):
-                for c in n.entries.values():
-                    pins(c)
-            elif isinstance(n, Pin):
-                live.add(n.obj)
-        pins(self.root)
-        objs = tuple((o, tuple(sorted(self.objs[o].items())))
-                     for o in sorted(live))
-        locks = tuple((i, tuple(self.locks[i])) for i in sorted(self.locks))
+                    fds.append((R(pid), fd, "b", rid(of.ref)))
+        fds.sort()
+        objs = tuple(sorted(
+            (rid(o), tuple(sorted((k, rid(v))
+                                  for k, v in self.objs[o].items())))
+            for o in live))
+        locks = tuple(sorted(
+            (rid(i), tuple(sorted((R(q), a, b, m) for q, a, b, m in ls)))
+            for i, ls in self.locks.items()))
         return (tree, tuple(sorted(inodes.items())), tuple(fds), locks, objs,
-                tuple(sorted(self.attached.items())))
+                tuple(sorted((k, rid(v))
+                             for k, v in self.attached.items())))
 
     def dump(self, path="/"):
         """{path: 'dir' | bytes | ('pin', obj)} for reports / conformance"""
@@ -656,7 +690,9 @@ class OsFacade:
         raise SimBug(f"os.{name} is not modelled by simos")
 
     def getpid(self):
-        return 1000 + current().pid()
+        rt = current()
+        # identical processes: nobody reads the pid written into lock files
+        return 1000 if getattr(rt, "symmetric", False) else 1000 + rt.pid()
 
     def makedirs(self, name, mode=0o777, exist_ok=False):
         rt = current()
@@ -1055,7 +1091,11 @@ class Run:
 
     def _record(self, p, name, args, result):
         ev = (name, _summ(args), result)
-        p.hist.update(repr(ev).encode())
+        if self.symmetric:      # own mkdtemp names must not tell who I am
+            p.hist.update(repr(ev).replace(f".p{p.pid}.", ".pSELF.")
+                          .encode())
+        else:
+            p.hist.update(repr(ev).encode())
         p.nops += 1
         p.events.append((self.nsteps,) + ev)
         self.log.append((self.nsteps, p.pid) + ev)
@@ -1280,12 +1320,51 @@ class Run:
 
     # ---- state ----------------------------------------------------------
     def key(self):
-        parts = [self.world.canon()]
-        for p in self.procs:
-            parts.append((p.status, p.nops, p.hist.hexdigest(), p.pending,
-                          p.options, sorted(p.flags.items())))
-        return hashlib.blake2b(repr(parts).encode(),
-                               digest_size=12).hexdigest()
+        return self.key_and_renaming()[0]
+
+    def key_and_renaming(self):
+        """-> (canonical key, {pid: canonical pid}).  For identical
+        processes the key is the smallest one over all renamings that are
+        compatible with the processes' own (pid independent) states."""
+        def sig(p):
+            s = (p.status, p.nops, p.hist.hexdigest(), repr(p.pending),
+                 repr(p.options), repr(sorted(p.flags.items())))
+            if self.symmetric:
+                s = tuple(x.replace(f".p{p.pid}.", ".pSELF.")
+                          if isinstance(x, str) else x for x in s)
+            return s
+        sigs = [sig(p) for p in self.procs]
+        ident = {p.pid: p.pid for p in self.procs}
+        if not self.symmetric:
+            cands = [ident]
+        else:
+            order = sorted(range(len(sigs)), key=lambda i: (sigs[i], i))
+            groups, cands = [], [{}]
+            for i in order:
+                if groups and sigs[groups[-1][0]] == sigs[i]:
+                    groups[-1].append(i)
+                else:
+                    groups.append([i])
+            pos = 0
+            for g in groups:
+                new = []
+                for perm in itertools.permutations(g):
+                    for c in cands:
+                        d = dict(c)
+                        for k, pid in enumerate(perm):
+                            d[pid] = pos + k
+                        new.append(d)
+                cands = new
+                pos += len(g)
+        best = None
+        for r in cands:
+            inv = sorted(r, key=r.get)     # canonical position -> pid
+            rep = repr([self.world.canon(None if r == ident else r)]
+                       + [sigs[i] for i in inv])
+            if best is None or rep < best[0]:
+                best = (rep, r)
+        return (hashlib.blake2b(best[0].encode(), digest_size=12)
+                .hexdigest(), best[1])
 
     def outcomes(self):
         return tuple(p.outcome for p in self.procs)
@@ -1328,8 +1407,9 @@ def _state_violations(space, run):
 def _observe(space, run):
     ps = run.parked()
     en = run.enabled_procs()
+    key, renaming = run.key_and_renaming()
     return dict(
-        key=run.key(),
+        key=key, renaming=renaming,
         enabled=run.choices(),
         alive=[p.pid for p in ps],
         crashable=[c[0] for c in run.choices(crash=True) if c[1] == CRASH],
@@ -1496,7 +1576,8 @@ def _level(ctx, space, res, stats, states, frontier, expand, bounded,
               f"{len(states)}", file=sys.stderr, flush=True)
     nxt = {}
     for key, cur, used, prefix, obs in succ:
-        dk = (key, cur) if bounded else key
+        dk = (key, None if cur is None else obs["renaming"][cur]) \
+            if bounded else key
         old = nxt.get(dk)
         if old is None or (used, prefix) < (old[2], old[3]):
             nxt[dk] = (key, cur, used, prefix, obs)
